@@ -35,6 +35,10 @@ const gobin = "go1.26.8"
 var (
 	repo  = envOr("VERIF_REPO", "/repo")
 	verif = envOr("VERIF_ROOT", "/verif")
+	// outRoot is where build cache, evidence and replay files go: /verif, or VERIF_DEVOUT for
+	// development runs against a scratch tree (several may run at once; nothing they write may
+	// land in /verif/evidence).
+	outRoot = envOr("VERIF_DEVOUT", verif)
 )
 
 func envOr(k, d string) string {
@@ -109,7 +113,7 @@ func run(dir string, env []string, name string, args ...string) (string, error) 
 // build returns the path of the worker binary for the current tree.
 func build(race bool) (string, string) {
 	th := treeHash()
-	cacheRoot := filepath.Join(verif, ".cache")
+	cacheRoot := filepath.Join(outRoot, ".cache")
 	os.MkdirAll(cacheRoot, 0o755)
 	lockf, err := os.OpenFile(filepath.Join(cacheRoot, "lock"), os.O_CREATE|os.O_RDWR, 0o644)
 	if err != nil {
@@ -674,19 +678,19 @@ func main() {
 		"property_id": prop, "tier": tier, "seed": seed, "level": "exploration",
 		"coverage": cov, "assumptions": info.Assumptions, "wall_s": wallS, "violations": len(fresh),
 	}
-	os.MkdirAll(filepath.Join(verif, "evidence"), 0o755)
+	os.MkdirAll(filepath.Join(outRoot, "evidence"), 0o755)
 	eb, _ := json.MarshalIndent(ev, "", " ")
-	os.WriteFile(filepath.Join(verif, "evidence", prop+".json"), append(eb, '\n'), 0o644)
+	os.WriteFile(filepath.Join(outRoot, "evidence", prop+".json"), append(eb, '\n'), 0o644)
 
 	fmt.Printf("simcheck: %s worlds=%d nontrivial-distinct=%d schedules=%d steps=%d faults=%v wall=%.1fs\n", prop, m.Evaluations, distinct, len(scheds), m.Steps, m.Faults, wallS)
 	if len(fresh) > 0 {
-		os.MkdirAll(filepath.Join(verif, "replays"), 0o755)
+		os.MkdirAll(filepath.Join(outRoot, "replays"), 0o755)
 		for i, v := range fresh {
 			if i >= 5 {
 				fmt.Printf("(%d further violation classes not written)\n", len(fresh)-i)
 				break
 			}
-			rp := filepath.Join(verif, "replays", fmt.Sprintf("%s-%d-%d-%d.json", prop, seed, v.Run, i))
+			rp := filepath.Join(outRoot, "replays", fmt.Sprintf("%s-%d-%d-%d.json", prop, seed, v.Run, i))
 			kind := "oracle"
 			if strings.HasPrefix(v.Violation.Class, "data-race") {
 				kind = "race"
